@@ -101,7 +101,7 @@ package job
 //@   ensures [C11] kept-running-time: existing != nil && jobtasks.taskRefOf(task).RunningTimestamp.IsZero() ==> result.RunningTimestamp == existing.RunningTimestamp
 //@   ensures [C11] kept-finish-time: existing != nil && !existing.FinishTimestamp.IsZero() ==> result.FinishTimestamp == existing.FinishTimestamp
 //@   ensures [C11] finish-time-from-task-when-new: (existing == nil || existing.FinishTimestamp.IsZero()) ==> execution.tsSame(result.FinishTimestamp, jobtasks.taskRefOf(task).FinishTimestamp)
-//@   ensures [C09] final-status-recorded: !jobtasks.taskRefOf(task).FinishTimestamp.IsZero() ==> result.DeletedStatus != nil && *result.DeletedStatus == result.Status
+//@   ensures [C09,C10] final-status-recorded: !jobtasks.taskRefOf(task).FinishTimestamp.IsZero() ==> result.DeletedStatus != nil && *result.DeletedStatus == result.Status
 //@   ensures [C09] deleted-status-kept: existing != nil && jobtasks.taskRefOf(task).FinishTimestamp.IsZero() ==> execution.statusSame(result.DeletedStatus, existing.DeletedStatus)
 //@   ensures [C11] status-from-task: result.Status == jobtasks.taskRefOf(task).Status && result.RetryIndex == jobtasks.taskRefOf(task).RetryIndex
 //@   ensures [C11] finish-time-stable: existing != nil && !existing.FinishTimestamp.IsZero() && !jobtasks.taskRefOf(task).FinishTimestamp.IsZero()
